@@ -47,11 +47,24 @@ theorem C12_exact_chunked (ps : Parts) (h : ps.ok = true) (eofd : Bool) (cs : Li
     framesChunked eofd cs = { frames := ps.msgs, end_ := .err "eof" } := by
   rw [C12_chunk_independent, hcs, C12_exact ps h]
 
-/-- the grammar `wfFrame` accepts exactly looks like this (so the hypothesis of `C12_exact` is the stated one) -/
-theorem C12_wfFrame_shape (m : Bytes) (h : wfFrame m = true) :
+/-- `wfFrame` is exactly the stated grammar: "8=" v SOH "9=" ds SOH body' SOH "10=" ck SOH with v, ck free of SOH,
+    ds a non-empty digit string whose value is the body length |body'|+1, offsets within Go's `int`
+    (so the hypothesis of `C12_exact` is neither narrower nor wider than "well-formed" as far as a framer can tell) -/
+theorem C12_wfFrame_iff (m : Bytes) :
+    wfFrame m = true ↔
     ∃ v ds body' ck, m = frameThen v ds body' ck [] ∧ (∀ x ∈ v, x ≠ 1) ∧ ds ≠ [] ∧ ds.all isDigit = true ∧
-      digitsVal ds = body'.length + 1 ∧ (∀ x ∈ ck, x ≠ 1) ∧ m.length < 9223372036854775807 :=
-  wfFrame_shape m h
+      digitsVal ds = body'.length + 1 ∧ (∀ x ∈ ck, x ≠ 1) ∧ m.length < 9223372036854775807 := by
+  constructor
+  · exact wfFrame_shape m
+  · rintro ⟨v, ds, body', ck, e, hv, hne, hdd, hval, hck, hlen⟩
+    subst e
+    exact wfFrame_of_shape v ds body' ck hv hne hdd hval hck hlen
+
+/-- the search primitive of the whole-stream spec is "first occurrence at or after `off`" -/
+theorem C12_findFrom_first_occurrence (off : Nat) (d s : Bytes) (i : Nat) :
+    findFrom off d s = some i ↔
+      (off ≤ i ∧ i ≤ s.length ∧ d <+: s.drop i ∧ ∀ k, off ≤ k → k < i → ¬ d <+: s.drop k) :=
+  findFrom_some_iff off d s i
 
 /-- the decomposition the monitor builds from the tokens of a `parts` op is a decomposition of the very stream read -/
 theorem C12_parts_stream (toks : List (Bool × Bytes)) : (mkParts toks).stream = (toks.map (·.2)).flatten :=
@@ -99,7 +112,8 @@ theorem C12_orig_negative_offset_faults (off : Int) (h : off < 0) (d : Bytes) (p
         the buffer grows by `grow` for frames larger than bigBuffer
   * "well-formed messages separated by arbitrary bytes without a BeginString marker ⇒ frames are exactly those
      messages, in order and byte-identical"
-        C12_exact, C12_exact_chunked (with C12_wfFrame_shape: what counts as well-formed)
+        C12_exact, C12_exact_chunked (with C12_wfFrame_iff: what counts as well-formed; C12_findFrom_first_occurrence:
+        the spec's search is declaratively the first occurrence)
   * C09 (framer part) "no panic / no hang"
         C12_no_fault, C12_ends_with_error; termination: `findIdx`, `runG`, `framesWholeG` are total functions
         accepted by Lean's termination checker (well-founded on unread chunks / buffered+unread bytes)
